@@ -486,6 +486,18 @@ type idxAnalyzer struct {
 	delta    map[*types.Func]map[string]fieldDelta
 	exitHook func(z *zone, rs *ast.ReturnStmt)
 	muted    bool
+	// pure getters: parameterless methods every implementation of which returns one never-reassigned field
+	getterMemo map[*types.Func]bool
+	fieldFixed map[*types.Var]bool
+	// boolean functions: what a true answer says about the lengths of sequences reached from a parameter
+	predTrue map[types.Object][]predFact
+}
+
+// predFact: the function returned true ⇒ len(<argument param><suffix>) >= min
+type predFact struct {
+	param  int
+	suffix string
+	min    int
 }
 
 // fieldDelta: how much a method advances a cursor field of its receiver, at least.
@@ -561,8 +573,163 @@ func (a *idxAnalyzer) termKey(e ast.Expr) (string, bool) {
 		}
 	case *ast.StarExpr:
 		return a.termKey(x.X)
+	case *ast.CallExpr:
+		// t.Literal(): a pure getter read of an immutable field names the same sequence every time
+		if len(x.Args) == 0 {
+			if se, ok := ast.Unparen(x.Fun).(*ast.SelectorExpr); ok {
+				if fn, ok := calleeOf(a.info, x).(*types.Func); ok && a.pureGetter(fn) {
+					if b, ok := a.termKey(se.X); ok {
+						return b + "." + fn.Name() + "()", true
+					}
+				}
+			}
+		}
 	}
 	return "", false
+}
+
+// pureGetter: fn takes nothing, returns one tracked sequence, and every implementation in the module
+// (all implementers when fn is an interface method) is `return recv.f` for a field f that no statement of
+// the module assigns (it is set by composite literals only): two calls on the same value agree.
+func (a *idxAnalyzer) pureGetter(fn *types.Func) bool {
+	if v, ok := a.getterMemo[fn]; ok {
+		return v
+	}
+	if a.getterMemo == nil {
+		a.getterMemo = map[*types.Func]bool{}
+		a.fieldFixed = map[*types.Var]bool{}
+	}
+	a.getterMemo[fn] = false
+	sig := fn.Type().(*types.Signature)
+	if sig.Recv() == nil || sig.Params().Len() != 0 || sig.Results().Len() != 1 || !a.track(sig.Results().At(0).Type()) {
+		return false
+	}
+	var impls []*types.Func
+	if it, ok := sig.Recv().Type().Underlying().(*types.Interface); ok {
+		for _, pk := range a.r.sortedPkgs() {
+			if pk.Types == nil || !strings.HasPrefix(pk.PkgPath, modPath) {
+				continue
+			}
+			sc := pk.Types.Scope()
+			for _, n := range sc.Names() {
+				tn, ok := sc.Lookup(n).(*types.TypeName)
+				if !ok || tn.IsAlias() {
+					continue
+				}
+				if _, isIface := tn.Type().Underlying().(*types.Interface); isIface {
+					continue
+				}
+				for _, t := range []types.Type{tn.Type(), types.NewPointer(tn.Type())} {
+					if types.Implements(t, it) {
+						if m, _, _ := types.LookupFieldOrMethod(t, true, fn.Pkg(), fn.Name()); m != nil {
+							if mf, ok := m.(*types.Func); ok {
+								impls = append(impls, mf)
+							}
+						}
+						break
+					}
+				}
+			}
+		}
+	} else {
+		impls = []*types.Func{fn}
+	}
+	if len(impls) == 0 {
+		return false
+	}
+	for _, m := range impls {
+		pk := a.r.ByPath[m.Pkg().Path()]
+		if pk == nil {
+			return false
+		}
+		var decl *ast.FuncDecl
+		for _, fd := range funcDecls(pk) {
+			if pk.TypesInfo.Defs[fd.Name] == m {
+				decl = fd
+			}
+		}
+		if decl == nil || decl.Body == nil || len(decl.Body.List) != 1 || decl.Recv == nil || len(decl.Recv.List) != 1 || len(decl.Recv.List[0].Names) != 1 {
+			return false
+		}
+		rs, ok := decl.Body.List[0].(*ast.ReturnStmt)
+		if !ok || len(rs.Results) != 1 {
+			return false
+		}
+		se, ok := ast.Unparen(rs.Results[0]).(*ast.SelectorExpr)
+		if !ok {
+			return false
+		}
+		id, ok := ast.Unparen(se.X).(*ast.Ident)
+		if !ok || pk.TypesInfo.Uses[id] != pk.TypesInfo.Defs[decl.Recv.List[0].Names[0]] {
+			return false
+		}
+		sel, ok := pk.TypesInfo.Selections[se]
+		if !ok || sel.Kind() != types.FieldVal {
+			return false
+		}
+		f, ok := sel.Obj().(*types.Var)
+		if !ok || !a.fieldNeverAssigned(f) {
+			return false
+		}
+	}
+	a.getterMemo[fn] = true
+	return true
+}
+
+func (a *idxAnalyzer) fieldNeverAssigned(f *types.Var) bool {
+	if v, ok := a.fieldFixed[f]; ok {
+		return v
+	}
+	fixed := true
+	for _, pk := range a.r.sortedPkgs() {
+		if !fixed || pk.TypesInfo == nil || !strings.HasPrefix(pk.PkgPath, modPath) {
+			continue
+		}
+		isF := func(e ast.Expr) bool {
+			for {
+				switch x := ast.Unparen(e).(type) {
+				case *ast.IndexExpr:
+					e = x.X
+					continue
+				case *ast.SliceExpr:
+					e = x.X
+					continue
+				case *ast.SelectorExpr:
+					if sel, ok := pk.TypesInfo.Selections[x]; ok && sel.Obj() == f {
+						return true
+					}
+				}
+				return false
+			}
+		}
+		for _, file := range pk.Syntax {
+			ast.Inspect(file, func(n ast.Node) bool {
+				switch x := n.(type) {
+				case *ast.AssignStmt:
+					for _, l := range x.Lhs {
+						if isF(l) {
+							fixed = false
+						}
+					}
+				case *ast.IncDecStmt:
+					if isF(x.X) {
+						fixed = false
+					}
+				case *ast.UnaryExpr:
+					if x.Op == token.AND && isF(x.X) {
+						fixed = false
+					}
+				case *ast.RangeStmt:
+					if (x.Key != nil && isF(x.Key)) || (x.Value != nil && isF(x.Value)) {
+						fixed = false
+					}
+				}
+				return fixed
+			})
+		}
+	}
+	a.fieldFixed[f] = fixed
+	return fixed
 }
 
 func isIntType(t types.Type) bool {
@@ -760,6 +927,18 @@ func (a *idxAnalyzer) refine(z *zone, e ast.Expr, truth bool) {
 			}
 		}
 		return
+	}
+	if call, isCall := ast.Unparen(e).(*ast.CallExpr); isCall && truth {
+		// a boolean function of this package that answered true: what its summary says about its arguments
+		if cal := calleeOf(a.info, call); cal != nil {
+			for _, pf := range a.predTrue[cal] {
+				if pf.param < len(call.Args) {
+					if ak, ok := a.termKey(call.Args[pf.param]); ok {
+						z.add(zeroTerm, "len("+ak+pf.suffix+")", -pf.min)
+					}
+				}
+			}
+		}
 	}
 	if call, isCall := ast.Unparen(e).(*ast.CallExpr); isCall && truth && len(call.Args) == 2 {
 		if cal, ok := calleeOf(a.info, call).(*types.Func); ok && cal.Pkg() != nil && (cal.Pkg().Path() == "strings" || cal.Pkg().Path() == "bytes") {
@@ -1485,6 +1664,9 @@ func (a *idxAnalyzer) seqLenOf(z *zone, e ast.Expr) *linExpr {
 			return a.lenLin(k)
 		}
 	case *ast.CallExpr:
+		if k, ok := a.seqKey(e); ok {
+			return a.lenLin(k)
+		}
 		// []rune(s), []byte(s), string(b): []byte(s) keeps the length; []rune(s) has len <= len(s)
 		if len(x.Args) == 1 {
 			if tv, ok := a.info.Types[x.Fun]; ok && tv.IsType() {
@@ -1816,6 +1998,9 @@ func (a *idxAnalyzer) forgetFields(z *zone, recv string, only map[string]bool) {
 			}
 			if strings.HasPrefix(tt, prefix) {
 				f := strings.SplitN(tt[len(prefix):], ".", 2)[0]
+				if strings.HasSuffix(f, "()") {
+					continue // a pure getter read of a field nothing assigns: no call changes it
+				}
 				if only == nil || only[f] {
 					kill[recv+"."+f] = true
 				}
